@@ -2,6 +2,7 @@
 pub mod build;
 pub mod dec;
 pub mod disas;
+pub mod lift;
 pub mod load;
 pub mod parse;
 pub mod reflect;
@@ -29,6 +30,7 @@ pub fn respond(line: &str) -> String {
         "disasbin" => disas::disasbin(rest),
         "dismain" => disas::dismain(rest),
         "loadasm" => disas::loadasm(rest),
+        "lift" => lift::lift(rest),
         "idmut" => reflect::idmut(rest),
         "loadbin" => load::loadbin(rest),
         _ => "bad-request".to_string(),
